@@ -203,6 +203,18 @@ def build(shape, gin, lists_on='target'):
               f'    obj.rec = {record_source(shape)}\n'
               f'    return obj\n')
     src = f'class {name}:\n{body}'
+    if shape.get('far_ctor'):
+      # a base class defines the *other* constructor (cooperative: swallows everything, and names
+      # one parameter, zz_base, of its own): the class's own constructor comes first in the MRO
+      # and is the one whose signature decides what can be passed
+      if kind == 'class_new':
+        base = (f'class {name}_Base:\n  def __init__(self, *args, zz_base=None, **kwargs):\n'
+                f'    self.zz_base = zz_base\n')
+      else:
+        base = (f'class {name}_Base:\n  def __new__(cls, *args, zz_base=None, **kwargs):\n'
+                f'    return object.__new__(cls)\n')
+      exec(compile(base, f'<{modname}>', 'exec'), mod.__dict__)  # pylint: disable=exec-used
+      src = f'class {name}({name}_Base):\n{body}'
     exec(compile(src, f'<{modname}>', 'exec'), mod.__dict__)  # pylint: disable=exec-used
     cls = mod.__dict__[name]
     original = cls.__dict__['__init__' if kind == 'class_init' else '__new__']
@@ -210,7 +222,8 @@ def build(shape, gin, lists_on='target'):
       original = original.__func__
     # `direct` must use the class as it was *before* an in-place registration
     if api == 'configurable':
-      src2 = src.replace(f'class {name}:', f'class {name}_plain:')
+      src2 = src.replace(f'class {name}:', f'class {name}_plain:').replace(
+          f'class {name}(', f'class {name}_plain(')
       exec(compile(src2, f'<{modname}>', 'exec'), mod.__dict__)  # pylint: disable=exec-used
       plain = mod.__dict__[name + '_plain']
     else:
